@@ -184,6 +184,24 @@ def gen_cases(tier, seed, gen, effort):
         for k in NAMED_KINDS:
             for scope in (None, ("include", ["fieldA"]), ("exclude", ["fieldA", "win.image"])):
                 cases.append({"rule": copy.deepcopy(r), "t": {"kind": k, "scope": scope}, "prior": k.startswith("addcond") or k == "nest"})
+    # fixed pairs judged by the Lean rewrite alone (kind "rand"): rare parameter values and item sequences
+    R = lambda dets, cond="sel", **kw: dict({"dets": dets, "cond": cond, "logsource": LS}, **kw)
+    FIXED_PAIRS = [
+        # an added (non-templated) condition followed by in-place transformations, after another rule went through the same pipeline
+        (R({"sel": {"fieldA": "abc"}}), {"type": "nest", "items": [{"type": "add_condition", "conditions": {"src": "eventlog", "n": [1, 2]}},
+                                                                     {"type": "field_name_prefix", "prefix": "win."}, {"type": "field_name_suffix", "suffix": ".k"}]}, True),
+        (R({"sel": {"fieldA": "abc"}}), {"type": "nest", "items": [{"type": "add_condition", "conditions": {"src": "abc"}},
+                                                                     {"type": "replace_string", "regex": "^", "replacement": "x"}]}, True),
+        # the mapped prefix occurs again later in the field name
+        (R({"sel": {"win.sub.win.name": "abc", "win.win.": "v", "xwin.a": 1}, "flt": {"f|fieldref": "win.a.win.b"}}, "sel and not flt", fields=["win.win.x", "a.win.b"]),
+         {"type": "field_name_prefix_mapping", "mapping": {"win.": "w_"}}, False),
+        (R({"sel": {"win.sub.win.name": "abc"}}), {"type": "field_name_prefix_mapping", "mapping": {"win.": ["w_", "v_"]}}, False),
+        # mapping to the empty string and to no value at all
+        (R({"sel": {"fieldA": ["abc", "foo", "val"], "fieldB": "abc"}}), {"type": "map_string", "mapping": {"abc": "", "foo": []}}, False),
+        (R({"sel": {"fieldA|contains|all": ["abc", "val"]}}), {"type": "map_string", "mapping": {"abc": ""}}, False),
+    ]
+    for r, y, prior in FIXED_PAIRS:
+        cases.append({"rule": copy.deepcopy(r), "t": {"kind": "rand", "scope": None, "yaml": y}, "prior": prior})
     for r in PH_RULES:
         for k in ("ph_value", "ph_wild", "ph_value_nest"):
             if k == "ph_wild" and "|re" in repr(r["dets"]):
